@@ -1733,4 +1733,64 @@ theorem rawStd_rejects (v : Bytes) (b : UInt8) (hb : b ∈ v) (hd : Base64.decCh
     simp only [List.mem_filter]
     exact ⟨hb, by simp [h10, h13]⟩) hd]
 
+/-! ### duplicate detection is per object -/
+
+theorem not_dupFree_of_hasRepeatedKey {j : Json} (h : HasRepeatedKey j) : dupFree j = false := by
+  induction h with
+  | here hn =>
+    cases hd : dupFree (Json.obj _) with
+    | false => rfl
+    | true => exact absurd (dupFree_obj.mp hd).1 hn
+  | member hm _ ih =>
+    cases hd : dupFree (Json.obj _) with
+    | false => rfl
+    | true => rw [dupFree_member hd hm] at ih; cases ih
+  | elem hm _ ih =>
+    cases hd : dupFree (Json.arr _) with
+    | false => rfl
+    | true => rw [dupFree_arr.mp hd _ hm] at ih; cases ih
+
+mutual
+theorem hasRepeatedKey_of_not_dupFree : (j : Json) → dupFree j = false → HasRepeatedKey j
+  | .arr xs, h => by
+    have h' : dupFreeList xs = false := by simpa [dupFree] using h
+    obtain ⟨x, hx, hr⟩ := hasRepeatedKey_list xs h'
+    exact .elem hx hr
+  | .obj fs, h => by
+    by_cases hn : (keysOf fs).Nodup
+    · have h' : dupFreeFields fs = false := by
+        cases hf : dupFreeFields fs with
+        | false => rfl
+        | true => rw [dupFree_obj.mpr ⟨hn, hf⟩] at h; cases h
+      obtain ⟨k, v, hm, hr⟩ := hasRepeatedKey_fields fs h'
+      exact .member hm hr
+    · exact .here hn
+  | .null, h => by simp [dupFree] at h
+  | .bool _, h => by simp [dupFree] at h
+  | .num, h => by simp [dupFree] at h
+  | .str _, h => by simp [dupFree] at h
+theorem hasRepeatedKey_list : (xs : List Json) → dupFreeList xs = false → ∃ x ∈ xs, HasRepeatedKey x
+  | [], h => by simp [dupFreeList] at h
+  | x :: xs, h => by
+    cases hx : dupFree x with
+    | false => exact ⟨x, List.mem_cons_self, hasRepeatedKey_of_not_dupFree x hx⟩
+    | true =>
+      have h' : dupFreeList xs = false := by simpa [dupFreeList, hx] using h
+      obtain ⟨y, hy, hr⟩ := hasRepeatedKey_list xs h'
+      exact ⟨y, List.mem_cons_of_mem _ hy, hr⟩
+theorem hasRepeatedKey_fields : (fs : Fields) → dupFreeFields fs = false →
+    ∃ k v, (k, v) ∈ fs ∧ HasRepeatedKey v
+  | [], h => by simp [dupFreeFields] at h
+  | (k, v) :: fs, h => by
+    cases hx : dupFree v with
+    | false => exact ⟨k, v, List.mem_cons_self, hasRepeatedKey_of_not_dupFree v hx⟩
+    | true =>
+      have h' : dupFreeFields fs = false := by simpa [dupFreeFields, hx] using h
+      obtain ⟨k', v', hy, hr⟩ := hasRepeatedKey_fields fs h'
+      exact ⟨k', v', List.mem_cons_of_mem _ hy, hr⟩
+end
+
+theorem dupFree_false_iff_hasRepeatedKey (j : Json) : dupFree j = false ↔ HasRepeatedKey j :=
+  ⟨hasRepeatedKey_of_not_dupFree j, not_dupFree_of_hasRepeatedKey⟩
+
 end ConfModel.ConnectJson
